@@ -102,6 +102,42 @@ def _natural_job(job):
     return dict(rec=rec, snaps=snaps, tr_ok=tr_ok)
 
 
+SEQ_SHAPES = [(2, 2), (2, 3), (3, 2), (3, 3), (2, 5), (5, 2), (2, 2), (4, 4), (3, 4), (4, 3), (1, 5), (5, 1), (3, 3), (2, 3)]
+BIG_SHAPES = [(12, 12), (16, 16), (2, 70), (70, 2), (20, 20), (1, 130), (130, 1), (11, 12)]
+
+
+def _sequence_job(job):
+    """one process, one generator, a fixed scrambled sequence of shapes (narrow-then-wide with equal row / column counts, repeats):
+    what was generated before in the process must not matter; then a few large / extreme shapes (cell counts and
+    coordinates beyond 127 / 255)"""
+    _k, seed, gi, n_ends = job
+    gen = gens.GEN_NAMES[gi]
+    rng = np.random.default_rng([seed, 13, gi])
+    np.random.seed(int(rng.integers(0, 2**31)))
+    random.seed(int(rng.integers(0, 2**31)))
+    out = []
+    for (r, c) in SEQ_SHAPES + BIG_SHAPES:
+        kw = {}
+        if (r, c) in BIG_SHAPES and gen in ("gen_dfs", "gen_prim") and rng.random() < 0.5:
+            kw["accessible_cells"] = int(rng.choice([127, 128, 129, 255, 256, 257]))
+        if gen in ("gen_percolation", "gen_dfs_percolation"):
+            kw["p"] = float(rng.choice([0.0, 0.3, 1.0]))
+        if gen == "gen_wilson" and r * c > 450:
+            continue
+        res, m = mz.outcome(lambda: gens.call_gen(gen, r, c, kw))
+        kwj = json.dumps(kw)
+        if res != "ok":
+            out.append(dict(rec=dict(gen=gen, R=r, C=c, raised=res, kwj=kwj, seed=[seed, -gi - 1]), snaps=None, tr_ok=None))
+            continue
+        rec = gens.record(gen, r, c, kw, m, n_ends=min(n_ends, 3))
+        rec["kwj"] = kwj
+        rec["seed"] = [seed, -gi - 1]
+        rec["src"] = "sequence"
+        del rec["kw"]
+        out.append(dict(rec=rec, snaps=None, tr_ok=None))
+    return out
+
+
 def _wilson_chain_job(job):
     _k, r, c, tl = job
     ch = gens.learn_wilson_chain(r, c, time_limit=tl)
@@ -120,7 +156,7 @@ def _wilson_chain_job(job):
 
 
 def _job(job):
-    return {"enum": _enum_job, "natural": _natural_job, "wchain": _wilson_chain_job}[job[0]](job)
+    return {"enum": _enum_job, "natural": _natural_job, "wchain": _wilson_chain_job, "sequence": _sequence_job}[job[0]](job)
 
 
 def _kwj(**kw):
@@ -175,6 +211,8 @@ def build_jobs(chk, thorough, n_ends_enum, n_ends_nat):
     # Wilson: closure of the code's own chain -> every output the real generator can produce
     for r, c in [(1, 1), (1, 2), (2, 1), (1, 3), (2, 2), (2, 3), (3, 2)] + ([(3, 3)] if thorough else []):
         jobs.append(("wchain", r, c, 1500.0))
+    for gi in range(5):
+        jobs.append(("sequence", chk.seed, gi, n_ends_nat))
     nnat = 6000 if thorough else 600
     for k in range(nnat):
         jobs.append(("natural", chk.seed, k, 8, n_ends_nat, k % 2 == 0))
@@ -192,7 +230,7 @@ def collect(chk, thorough, n_ends_enum=0, n_ends_nat=0):
     """returns (final-output records, dfs traces, wilson traces, stats)"""
     jobs = build_jobs(chk, thorough, n_ends_enum, n_ends_nat)
     # heavy jobs first
-    order = sorted(range(len(jobs)), key=lambda i: 0 if jobs[i][0] == "wchain" else 1 if jobs[i][0] == "enum" else 2)
+    order = sorted(range(len(jobs)), key=lambda i: 0 if jobs[i][0] in ("wchain", "sequence") else 1 if jobs[i][0] == "enum" else 2)
     outs = lib.pmap(_job, [jobs[i] for i in order], chunksize=1)
     recs, raised, tr_dfs, tr_wil = [], [], [], []
     stats = dict(enum_jobs=0, enum_executions=0, enum_incomplete=[], unscripted=[], wilson_chains=[], natural=0, tracer_unavailable=0)
@@ -209,6 +247,10 @@ def collect(chk, thorough, n_ends_enum=0, n_ends_nat=0):
         elif job[0] == "wchain":
             stats["wilson_chains"].append({k: v for k, v in out.items() if k != "recs"})
             recs += out["recs"]
+        elif job[0] == "sequence":
+            for o in out:
+                stats["sequence_records"] = stats.get("sequence_records", 0) + 1
+                (raised if "raised" in o["rec"] else recs).append(o["rec"])
         else:
             stats["natural"] += 1
             r = out["rec"]
@@ -282,6 +324,12 @@ def replay_record(case):
     gen, r, c = case["gen"], case["R"], case["C"]
     if case.get("src") == "enum" or "script" in case:
         res, m, _calls = gens.run_scripted(lambda: gens.call_gen(gen, r, c, kw), case["script"])
+    elif "seed" in case and case["seed"][1] < 0:
+        outs = _sequence_job(("sequence", case["seed"][0], -case["seed"][1] - 1, 3))
+        for o in outs:
+            if o["rec"]["R"] == r and o["rec"]["C"] == c and o["rec"].get("kwj") == case.get("kwj"):
+                return o["rec"]
+        return None
     elif "seed" in case:
         out = _natural_job(("natural", case["seed"][0], case["seed"][1], 8, len(case.get("ends", [])), False))
         return out["rec"]
